@@ -269,12 +269,16 @@ def gen_container(rng, n, have_insert):
     return lines
 
 
-def exh_container(maxlen, have_insert):
+def exh_container(maxlen, have_insert, core=False):
     """every history of the given length over a small alphabet (correspondence input, not proof)"""
-    alphabet = ["add 0 1", "add 0 2", "rmat 0 1", "rmat 0 2", "setnum 0 1", "addat 0 3 2", "shrink 0",
-                "copy 1 0", "move 0 1", "resize 0 0", "addu 0 1"]
-    if have_insert:
-        alphabet += ["ins 0 1 3", "ins 0 2 4"]
+    if core:
+        alphabet = ["add 0 1", "add 0 2", "rmat 0 1", "setnum 0 1", "copy 1 0", "move 0 1", "shrink 0"]
+        alphabet += ["ins 0 1 3"] if have_insert else ["addat 0 3 2"]
+    else:
+        alphabet = ["add 0 1", "add 0 2", "rmat 0 1", "rmat 0 2", "setnum 0 1", "addat 0 3 2", "shrink 0",
+                    "copy 1 0", "move 0 1", "resize 0 0", "addu 0 1"]
+        if have_insert:
+            alphabet += ["ins 0 1 3", "ins 0 2 4"]
     return [["reset"] + list(c) for c in itertools.product(alphabet, repeat=maxlen)]
 
 
@@ -449,9 +453,11 @@ def gen_hashset(rng, n):
     return lines
 
 
-def exh_hashset(maxlen):
+def exh_hashset(maxlen, core=False):
     """every history of the given length over 4 colliding keys (correspondence input, not proof)"""
     alphabet = ["put 0 1", "put 1 2", "put 2 3", "put 3 4", "rm 0", "rm 1", "rm 2", "shrink", "resize 2", "clear"]
+    if core:
+        alphabet = ["put 0 1", "put 1 2", "put 2 3", "put 3 4", "rm 0", "rm 1", "shrink", "resize 2"]
     head = "reset " + " ".join(str(h) for h in COLLIDE)
     return [[head] + list(c) + ["enum"] for c in itertools.product(alphabet, repeat=maxlen)]
 
@@ -506,7 +512,7 @@ def check_hashset(ctx, quick):
         for i in range(ncases):
             yield ("hashset:random:%d" % i, gen_hashset(rng, rng.choice([8, 30, length])))
     bad += run_area(ctx, d, "hashset", rnd(), 100)
-    exh = exh_hashset(3 if quick else 5)
+    exh = exh_hashset(3 if quick else 5) + exh_hashset(4 if quick else 6, core=True)
     ctx.stats["hashset_exhaustive_histories"] = len(exh)
     bad += run_area(ctx, d, "hashset", (("hashset:exh:%d" % i, c) for i, c in enumerate(exh)), 5000)
     sizes = [(60, "collide"), (400, "identity"), (1500, "random")] if quick else \
@@ -745,10 +751,12 @@ def gen_str(rng, n):
     return lines
 
 
-def exh_str(maxlen):
+def exh_str(maxlen, core=False):
     """every history of the given length over a small alphabet on two strings (correspondence input)"""
     alphabet = ["ctor 0 2061", "copy 1 0", "appc 1 120", "cap 1 1", "minus 0 1", "app 0 1", "app 1 1", "setc 1 0 81",
                 "strip 0", "reserve 1 9", "upper 0", "assignn 1 7a 1"]
+    if core:
+        alphabet = ["ctor 0 2061", "copy 1 0", "appc 1 120", "cap 1 1", "minus 0 1", "app 0 1", "setc 1 0 81", "strip 0"]
     return [["reset"] + list(c) for c in itertools.product(alphabet, repeat=maxlen)]
 
 
@@ -768,7 +776,7 @@ def check_str(ctx, quick):
         for i in range(ncases):
             yield ("str:random:%d" % i, gen_str(rng, rng.choice([8, 30, length])))
     bad += run_area(ctx, d, "str", rnd(), 100)
-    exh = exh_str(3 if quick else 5)
+    exh = exh_str(3 if quick else 5) + exh_str(4 if quick else 6, core=True)
     ctx.stats["str_exhaustive_histories"] = len(exh)
     bad += run_area(ctx, d, "str", (("str:exh:%d" % i, c) for i, c in enumerate(exh)), 5000)
     if not quick:
@@ -804,7 +812,7 @@ def check_container(ctx, quick):
         for i in range(ncases):
             yield ("container:random:%d" % i, gen_container(rng, rng.choice([8, 30, length]), have_insert))
     bad += run_area(ctx, d, "container", rnd(), 100)
-    exh = exh_container(3 if quick else 5, have_insert)
+    exh = exh_container(3 if quick else 5, have_insert) + exh_container(4 if quick else 6, have_insert, core=True)
     ctx.stats["container_exhaustive_histories"] = len(exh)
     bad += run_area(ctx, d, "container", (("container:exh:%d" % i, c) for i, c in enumerate(exh)), 5000)
     if not quick:
@@ -829,7 +837,7 @@ def check(ctx):
     cov = {
         "evaluations": sum(d.cases for d in ds.values()),
         "distinct_nontrivial": sum(len(d.distinct) for d in ds.values()),
-        "rule": "operation histories over two containers of a lifetime-counting element type with values 1..4 (3% illegal lines, ~5% undefined-behaviour lines answered `ub` by both sides); every history of the stated length over a reduced alphabet; non-trivial = at least one accepted operation with an observation; distinct by SHA-1 of the op lines",
+        "rule": "operation histories over two containers of a lifetime-counting element type with values 1..4 (3% illegal lines, ~5% undefined-behaviour lines answered `ub` by both sides); every history of length 3 (quick) / 5 (thorough) over a 10-13 operation alphabet and of length 4 / 6 over an 8 operation core alphabet per area (4 values / 4 colliding keys / 2 strings); non-trivial = at least one accepted operation with an observation; distinct by SHA-1 of the op lines",
         "per_area": {a: {"cases": d.cases, "op_lines": d.lines, "op_histogram": d.hist, "model_answer_kinds": d.outkinds}
                      for a, d in ds.items()},
         "exhaustive": False,
